@@ -20,9 +20,13 @@ EXTRA_ENTRIES = ["<crate::Fq2 as core::convert::TryFrom<&[u8]>>::try_from"]
 def run(ctx):
     rules = []
     per_cfg = {}
-    for cfg in ("dev", "rel"):
+    convs = {cfg: None for cfg in ("dev", "rel")}
+    for cfg in convs:
         repo = Repo(ctx.facts(cfg))
-        ls = convert.make_conv(repo)
+        convs[cfg] = (repo, convert.make_conv(repo))
+    convert.share_length_domains(convs["dev"][1], convs["rel"][1], list(SPEC) + EXTRA_ENTRIES)
+    for cfg in ("dev", "rel"):
+        repo, ls = convs[cfg]
         r_acc, results = convert.rule_accept("C08", repo, ls, SPEC, cfg)
         rules.append(r_acc)
         rules.append(convert.rule_total("C08", repo, ls, list(SPEC) + EXTRA_ENTRIES, cfg, results))
@@ -37,13 +41,7 @@ def run(ctx):
     for path in SPEC:
         r.instance()
         a, b = rd.get(path, {}), rr.get(path, {})
-        diff = []
-        for k in sorted(set(a) | set(b), key=str):
-            oa, ob = a.get(k), b.get(k)
-            sa_ = (frozenset(oa.variants), bool(oa.panics)) if oa else None
-            sb_ = (frozenset(ob.variants), bool(ob.panics)) if ob else None
-            if sa_ != sb_:
-                diff.append(k)
+        diff = convert.outcome_map_diff(a, b)
         r.check(not diff, "C08:profile-dependent:%s" % path, "%s behaves differently in dev and release for %d abstract inputs, e.g. (len, first byte) = %s" % (path, len(diff), diff[:4]),
                 fn=path, sample={"decoder": path, "points_compared": len(set(a) | set(b))})
     rules.append(r.finish())
